@@ -6,7 +6,7 @@
    [wf_forest]: windows are whole seconds >= 1 s, max >= 0, every parent link
    leads to a root without repeating a quota (what the loader builds). *)
 From Coq Require Import List ZArith Bool Lia.
-From Verif Require Import C01.Model C01.Proofs.
+From Verif Require Import C01.Model C01.Proofs C01.Levels C01.Weighted.
 Import ListNotations.
 Open Scope Z_scope.
 
@@ -183,6 +183,187 @@ Proof.
 Qed.
 Print Assumptions C01_exact_sequential_roots.
 
+(* ---------------------------------------------------------------- custom counters, decomposed walks
+
+   Counts, for EVERY quota (also fixed_window_custom_counter): requests the
+   chain-level Allowed let through <= true per-key verdicts <= charges, per key
+   and window.  (The bound of the count by max needs cost 1: C01_admitted_bound.) *)
+Theorem C01_counts_bound : forall f sched clk0,
+  wf_forest f = true -> clock_ok clk0 sched ->
+  let w := fst (run f init sched) in
+  forall k d s, lookup (fst k) f = Some d ->
+    pcount k s (passes w) <= gcount k s (grants w) /\
+    gcount k s (grants w) <= ccount k s (charges w).
+Proof. exact counts_bound. Qed.
+Print Assumptions C01_counts_bound.
+
+(* In cost units (the reading of the property for custom counters): when the
+   cost of a request is the same wherever the schedule names it ([kappa] of its
+   id) and not negative, the cost of the requests let through, per key and
+   window, is at most the charged cost, which is at most max. *)
+Theorem C01_let_through_weight_bound : forall kappa f sched clk0,
+  (forall r, 0 <= kappa r) ->
+  wf_forest f = true -> clock_ok clk0 sched -> Forall (act_ok kappa) sched ->
+  let w := fst (run f init sched) in
+  forall k d s, lookup (fst k) f = Some d ->
+    psum k s (passes w) <= csum k s (charges w) /\ csum k s (charges w) <= q_max d.
+Proof. intros kappa f sched clk0 Hk. exact (let_through_weight_bound kappa Hk f sched clk0). Qed.
+Print Assumptions C01_let_through_weight_bound.
+
+(* A chain walk decomposed into its per-key bodies (the real interleaving of
+   concurrent walks) logs nothing in [passes]; there "let through" means a true
+   verdict of the per-key Allowed on every key of the chain, and every such
+   verdict is a grant of that key in its stored window - the log bounded by
+   [gcount <= ccount (<= max)] above and in C01_admitted_bound. *)
+Theorem C01_true_key_verdict_is_granted : forall f w q d rq w',
+  lookup q f = Some d -> step f w (KAllowed q rq) = (w', OBool true) ->
+  grants w' = {| g_key := key_of q d rq; g_ws := ws_or0 (st w (key_of q d rq)); g_req := r_id rq |} :: grants w.
+Proof.
+  intros f w q d rq w' HL H. cbn [step] in H. rewrite HL in H. unfold do_kallowed in H.
+  destruct (kallowed (st w (key_of q d rq)) (r_id rq)) as [ks' b].
+  inversion H; subst. reflexivity.
+Qed.
+Print Assumptions C01_true_key_verdict_is_granted.
+
+(* ---------------------------------------------------------------- one clock reading per level
+
+   fixedWindow.Inc reads the clock once per level of the chain.  [seq_step_t]
+   / [seq_run_t] give every request its own list of readings: [now] for its own
+   quota, [later] for the ancestors in order (when [later] is exhausted the
+   clock no longer advances); [with_times ch now later] pairs every key of the
+   chain with the reading of its level.  [seq_step] / [seq_run] are the case
+   [later = []], so the theorems above are instances of the ones below. *)
+Theorem C01_levels_generalise : forall f w x h ch now,
+  seq_step_t f w (x, []) = seq_step f w x /\
+  seq_run_t f w (lift_h h) = seq_run f w h /\
+  with_times ch now [] = map (fun qd => (qd, now)) ch.
+Proof. intros. split; [apply seq_step_t_nil|]. split; [apply seq_run_t_lift|apply with_times_nil]. Qed.
+Print Assumptions C01_levels_generalise.
+
+(* After ANY one-at-a-time history (any readings, no clock hypothesis) the
+   verdict is "refused" exactly when some key of the chain has
+   effective_count + cost > max AT THE READING OF ITS OWN LEVEL. *)
+Theorem C01_exact_sequential_levels : forall f hist q rq now later ch,
+  wf_forest f = true -> chain_of f q = Some ch ->
+  let w := fst (seq_run_t f init hist) in
+  let l := with_times ch now later in
+  snd (seq_step_t f w (q, rq, now, later)) = OBool (forallb (has_room_at w rq) l) /\
+  (snd (seq_step_t f w (q, rq, now, later)) = OBool false <->
+   exists qd t, In (qd, t) l /\
+     q_max (snd qd) < eff_count (q_win (snd qd)) (st w (key_of (fst qd) (snd qd) rq)) t
+                      + cost_of (snd qd) rq).
+Proof. exact exact_sequential_levels. Qed.
+Print Assumptions C01_exact_sequential_levels.
+
+(* ---------------------------------------------------------------- F-C01, exactly
+
+   [phantoms f init hist]: the charges left by the requests of [hist] that were
+   refused, on the keys BELOW the key that refused them (Model.v).  They are
+   the whole difference between what is booked and what was let through ... *)
+Theorem C01_booked_is_let_through_plus_phantoms : forall f hist,
+  wf_forest f = true ->
+  let w := fst (seq_run_t f init hist) in
+  forall k s, csum k s (charges w) = psum k s (passes w) + csum k s (phantoms f init hist).
+Proof. exact booked_is_let_through_plus_phantoms. Qed.
+Print Assumptions C01_booked_is_let_through_plus_phantoms.
+
+(* ... and a charge is a phantom exactly when an earlier request of the history
+   was refused ([qa], a strict ancestor of the charged key [qt], had no room at
+   its reading) after every key up to [qt] had been charged ([walk_charge]: key
+   of [qt], the window stored there, the reading of that level, the request,
+   its cost). *)
+Theorem C01_phantoms_are_ancestor_refusals : forall f hist c,
+  wf_forest f = true ->
+  (In c (phantoms f init hist) <->
+   exists h1 q rq now later h2 ch pre qt mid qa post,
+     hist = h1 ++ (q, rq, now, later) :: h2 /\ chain_of f q = Some ch /\
+     let w1 := fst (seq_run_t f init h1) in
+     snd (seq_step_t f w1 (q, rq, now, later)) = OBool false /\
+     with_times ch now later = pre ++ qt :: mid ++ qa :: post /\
+     forallb (has_room_at w1 rq) (pre ++ qt :: mid) = true /\ has_room_at w1 rq qa = false /\
+     c = walk_charge w1 rq qt).
+Proof. exact phantoms_are_ancestor_refusals. Qed.
+Print Assumptions C01_phantoms_are_ancestor_refusals.
+
+(* Exactness w.r.t. the requests let through, with the finding made explicit:
+   a request is refused iff some key of its chain, at the reading of its level,
+   has  let-through + phantoms + cost > max  in its current window. *)
+Theorem C01_exact_sequential_with_phantoms : forall f hist clk0 q rq now later ch,
+  wf_forest f = true -> seq_clock_ok_t clk0 hist -> chain_of f q = Some ch ->
+  let w := fst (seq_run_t f init hist) in
+  let P := phantoms f init hist in
+  let l := with_times ch now later in
+  snd (seq_step_t f w (q, rq, now, later)) = OBool (negb (existsb (full_with_phantoms_at P w rq) l)) /\
+  (snd (seq_step_t f w (q, rq, now, later)) = OBool false <->
+   exists qd t, In (qd, t) l /\
+     q_max (snd qd) < eff_pass w rq t qd + eff_phantom P w rq t qd + cost_of (snd qd) rq).
+Proof. exact exact_sequential_with_phantoms. Qed.
+Print Assumptions C01_exact_sequential_with_phantoms.
+
+(* The same in the vocabulary of [C01_exact_sequential_full] (one reading per request). *)
+Theorem C01_refused_iff_full_with_phantoms : forall f hist clk0 q rq now ch,
+  wf_forest f = true -> seq_clock_ok clk0 hist -> chain_of f q = Some ch ->
+  let w := fst (seq_run f init hist) in
+  let P := phantoms f init (lift_h hist) in
+  (forall k s, csum k s (charges w) = psum k s (passes w) + csum k s P) /\
+  (snd (seq_step f w (q, rq, now)) = OBool false <->
+   exists qd, In qd ch /\
+     q_max (snd qd) < eff_pass w rq now qd + eff_phantom P w rq now qd + cost_of (snd qd) rq).
+Proof. exact refused_iff_full_with_phantoms. Qed.
+Print Assumptions C01_refused_iff_full_with_phantoms.
+
+(* The failures of [C01_exact_sequential_full] are EXACTLY F-C01: a refusal
+   with no key full of let-through requests happens iff some key of the chain
+   is filled by phantoms ([phantom_fills]: not full of let-through requests,
+   full once the charges of ancestor-refused requests are added). *)
+Theorem C01_spurious_refusal_iff_decisive_phantom : forall f hist clk0 q rq now later ch,
+  wf_forest f = true -> seq_clock_ok_t clk0 hist -> chain_of f q = Some ch ->
+  let w := fst (seq_run_t f init hist) in
+  let P := phantoms f init hist in
+  let l := with_times ch now later in
+  (snd (seq_step_t f w (q, rq, now, later)) = OBool false /\ existsb (pass_full_at w rq) l = false) <->
+  (existsb (pass_full_at w rq) l = false /\ existsb (phantom_fills_at P w rq) l = true).
+Proof. exact spurious_refusal_iff_decisive_phantom. Qed.
+Print Assumptions C01_spurious_refusal_iff_decisive_phantom.
+
+(* Hence, outside the finding (no key of the chain filled by phantoms - decidable):
+   refused only if some key is full of requests let through. *)
+Theorem C01_exact_sequential_full_holds_outside_decisive_phantom :
+  forall f hist clk0 q rq now later ch,
+  wf_forest f = true -> seq_clock_ok_t clk0 hist -> chain_of f q = Some ch ->
+  let w := fst (seq_run_t f init hist) in
+  let P := phantoms f init hist in
+  let l := with_times ch now later in
+  existsb (phantom_fills_at P w rq) l = false ->
+  snd (seq_step_t f w (q, rq, now, later)) = OBool false ->
+  existsb (pass_full_at w rq) l = true.
+Proof. exact refused_only_if_full_outside_decisive_phantom. Qed.
+Print Assumptions C01_exact_sequential_full_holds_outside_decisive_phantom.
+
+(* With both directions (phantoms of negative custom-counter cost could also
+   make room): no key filled by phantoms, no negative phantom sum. *)
+Theorem C01_exact_sequential_holds_outside_decisive_phantom :
+  forall f hist clk0 q rq now later ch,
+  wf_forest f = true -> seq_clock_ok_t clk0 hist -> chain_of f q = Some ch ->
+  let w := fst (seq_run_t f init hist) in
+  let P := phantoms f init hist in
+  let l := with_times ch now later in
+  forallb (outside_decisive_phantom P w rq) l = true ->
+  snd (seq_step_t f w (q, rq, now, later)) = OBool (negb (existsb (pass_full_at w rq) l)).
+Proof. exact holds_outside_decisive_phantom. Qed.
+Print Assumptions C01_exact_sequential_holds_outside_decisive_phantom.
+
+(* The side condition of [C01_exact_sequential_holds_outside_ancestor_refusal]
+   ([no_phantom] on every key) implies this one (strictly: Example below). *)
+Theorem C01_no_phantom_implies_outside_decisive_phantom : forall f hist q rq now later ch,
+  wf_forest f = true -> chain_of f q = Some ch ->
+  let w := fst (seq_run_t f init hist) in
+  let P := phantoms f init hist in
+  forallb (no_phantom w rq) ch = true ->
+  forallb (outside_decisive_phantom P w rq) (with_times ch now later) = true.
+Proof. exact no_phantom_outside_decisive. Qed.
+Print Assumptions C01_no_phantom_implies_outside_decisive_phantom.
+
 (* ---------------------------------------------------------------- non-vacuity *)
 
 (* a grouped child under a parent: roll-over, refusal by the child, refusal by
@@ -218,3 +399,79 @@ Example C01_example_sequential :
   forallb (no_phantom (fst (seq_run F_C01_forest init [(2, mkr 1 [] 0, 5 * sec)])) (mkr 2 [] 0))
     [(2, mkq 2 10 (Some 1) None false); (1, mkq 1 1 None None false)] = true.
 Proof. repeat split; vm_compute; reflexivity. Qed.
+
+(* per-level readings matter: parent 1 = 1 request / 1 s, child 2 = 5 / 10 s;
+   r1 at 5.0 s; r2 reads 5.999999999 s at the child: refused when the parent is
+   read at the same instant, let through when the parent is read at 6.0 s *)
+Definition lv_forest : forest := [(1, mkq 1 1 None None false); (2, mkq 5 10 (Some 1) None false)].
+Definition lv_hist : list treq := [(2, mkr 1 [] 0, 5 * sec, [5 * sec + 1])].
+Example C01_example_levels :
+  wf_forest lv_forest = true /\ seq_clock_ok_t 0 lv_hist /\
+  snd (seq_run_t lv_forest init lv_hist) = [OBool true] /\
+  snd (seq_step_t lv_forest (fst (seq_run_t lv_forest init lv_hist)) (2, mkr 2 [] 0, 6 * sec - 1, [])) = OBool false /\
+  snd (seq_step_t lv_forest (fst (seq_run_t lv_forest init lv_hist)) (2, mkr 2 [] 0, 6 * sec - 1, [6 * sec + 1])) = OBool true.
+Proof.
+  split; [vm_compute; reflexivity|]. split.
+  - unfold lv_hist, sec. cbn [seq_clock_ok_t mono last]. repeat split; lia.
+  - repeat split; vm_compute; reflexivity.
+Qed.
+
+(* F-C01 through the phantoms: after the witness history the only phantom is
+   r2's charge on the child's window 5; r3 at 6.5 s is refused, no key is full
+   of let-through requests, the child is filled by the phantom.  At 5.2 s the
+   parent is genuinely full (no spurious refusal although the child holds a
+   phantom).  With child max 3 the phantom is there ([no_phantom] false) but not
+   decisive: the new side condition holds and r3 is let through. *)
+Definition F_C01_chain := [(2, mkq 2 10 (Some 1) None false); (1, mkq 1 1 None None false)].
+Definition F_C01_forest3 : forest := [(1, mkq 1 1 None None false); (2, mkq 3 10 (Some 1) None false)].
+Definition F_C01_chain3 := [(2, mkq 3 10 (Some 1) None false); (1, mkq 1 1 None None false)].
+Example C01_example_phantoms :
+  let h := lift_h F_C01_hist in
+  let w := fst (seq_run_t F_C01_forest init h) in
+  let P := phantoms F_C01_forest init h in
+  seq_clock_ok_t 0 h /\
+  P = [{| c_key := (2, 0); c_ws := 5; c_at := 5 * sec + 100000000; c_req := 2; c_cost := 1 |}] /\
+  (let l := with_times F_C01_chain (6 * sec + 500000000) [] in
+   existsb (pass_full_at w (mkr 3 [] 0)) l = false /\ existsb (phantom_fills_at P w (mkr 3 [] 0)) l = true) /\
+  (let l := with_times F_C01_chain (5 * sec + 200000000) [] in
+   existsb (pass_full_at w (mkr 3 [] 0)) l = true) /\
+  (let w3 := fst (seq_run_t F_C01_forest3 init h) in
+   let P3 := phantoms F_C01_forest3 init h in
+   let l := with_times F_C01_chain3 (6 * sec + 500000000) [] in
+   forallb (no_phantom w3 (mkr 3 [] 0)) F_C01_chain3 = false /\
+   forallb (outside_decisive_phantom P3 w3 (mkr 3 [] 0)) l = true /\
+   snd (seq_step_t F_C01_forest3 w3 (2, mkr 3 [] 0, 6 * sec + 500000000, [])) = OBool true).
+Proof.
+  cbv zeta. split.
+  - unfold F_C01_hist, lift_h, sec. cbn [map seq_clock_ok_t mono last]. repeat split; lia.
+  - repeat split; vm_compute; reflexivity.
+Qed.
+
+(* custom counter, max 3 / 1 s: costs by request id 2, 2, 1 - the hypotheses of
+   the weighted bound hold; r2 is refused, r1 and r3 are let through: 3 cost units *)
+Definition cc_forest : forest := [(1, mkq 3 1 None None true)].
+Definition cc_kappa (r : Z) : Z := if r =? 3 then 1 else 2.
+Definition cc_sched : list action :=
+  [Inc 1 (mkr 1 [] 2) (5 * sec); KInc 1 (mkr 2 [] 2) (5 * sec + 1); Allowed 1 (mkr 1 [] 2);
+   KAllowed 1 (mkr 2 [] 2); Inc 1 (mkr 3 [] 1) (5 * sec + 2); Allowed 1 (mkr 3 [] 1)].
+Example C01_example_weighted :
+  (forall r, 0 <= cc_kappa r) /\ wf_forest cc_forest = true /\ clock_ok 0 cc_sched /\
+  Forall (act_ok cc_kappa) cc_sched /\
+  snd (run cc_forest init cc_sched) = [ONone; ORes Blocked; OBool true; OBool false; ONone; OBool true] /\
+  psum (1, 0) 5 (passes (fst (run cc_forest init cc_sched))) = 3.
+Proof.
+  split; [intros r; unfold cc_kappa; destruct (r =? 3); lia|].
+  split; [vm_compute; reflexivity|]. split.
+  - unfold cc_sched, sec. cbn [clock_ok time_of]. repeat split; lia.
+  - split; [repeat constructor|]. split; vm_compute; reflexivity.
+Qed.
+
+(* negative custom costs void the REQUEST-COUNT reading (not the theorems): max 1,
+   costs -3, 1, 1, 1, 1: five requests let through in one window, the sixth refused *)
+Example C01_example_negative_cost :
+  let f := [(1, mkq 1 10 None None true)] in
+  wf_forest f = true /\
+  snd (seq_run f init [(1, mkr 1 [] (-3), 5 * sec); (1, mkr 2 [] 1, 5 * sec); (1, mkr 3 [] 1, 5 * sec);
+                       (1, mkr 4 [] 1, 5 * sec); (1, mkr 5 [] 1, 5 * sec); (1, mkr 6 [] 1, 5 * sec)])
+  = [OBool true; OBool true; OBool true; OBool true; OBool true; OBool false].
+Proof. split; vm_compute; reflexivity. Qed.
